@@ -37,7 +37,8 @@ ASSUMPTIONS = [
 ]
 REACH = {t: ["versions_11", "all_256_message_types", "rssi_min", "rssi_max", "empty_payload", "max_payload",
              "unicast", "multicast", "broadcast", "ignored_type", "join", "leave", "deny", "v14_layout",
-             "pre_v14_layout", "versions_mixed_in_one_process", "own_address_changed_mid_run"] for t in ("quick", "thorough")}
+             "pre_v14_layout", "versions_mixed_in_one_process", "own_address_changed_mid_run",
+             "same_application_reconnected_to_another_version", "join_callbacks_back_to_back"] for t in ("quick", "thorough")}
 SHARD_TIMEOUT = {"quick": 900, "thorough": 3600}
 ID_INCOMING = 0x45
 ID_TCJOIN = 0x24
@@ -68,6 +69,11 @@ def shards(tier, seed):
         [[a, 14] for a in range(4, 14)] + [[14, a] for a in range(4, 14)] + [[4, 8, 14], [14, 9, 5], list(range(14, 3, -1)), list(range(4, 15))]
     for m in mixes:
         out.append({"versions": m, "n": (800 if tier == "quick" else 8000), "seed": seed + 1})
+    # one application object reconnected to NCPs of other protocol versions (across the v14 boundary)
+    hops = [[13, 14, 13], [14, 4, 14], [8, 14]] if tier == "quick" else \
+        [[13, 14, 13], [14, 4, 14], [8, 14], [14, 13], [4, 14, 8, 14], [12, 14, 12], [14, 14], [7, 13]]
+    for h in hops:
+        out.append({"versions": [h[0]], "reconnect": h[1:], "n": (600 if tier == "quick" else 6000), "seed": seed + 2})
     return out
 
 
@@ -91,7 +97,7 @@ def run_shard(desc) -> Acc:
             ap_.app.handle_join = lambda nwk, ieee, parent, *a, rec_=rec_, **k: rec_.append(("join", int(nwk), bytes(ieee.serialize()), int(parent)))
             ap_.app.handle_leave = lambda nwk, ieee, *a, rec_=rec_, **k: rec_.append(("leave", int(nwk), bytes(ieee.serialize())))
             acc.hit("v14_layout" if V_ >= 14 else "pre_v14_layout")
-            ctxs.append([V_, ap_.app, ap_.ncp, int(ap_.app.state.node_info.nwk), rec_])
+            ctxs.append([V_, ap_.app, ap_.ncp, int(ap_.app.state.node_info.nwk), rec_, ap_])
         types_seen = set()
         seq = 200
 
@@ -115,7 +121,19 @@ def run_shard(desc) -> Acc:
                 if new_nwk != ctx[3]:
                     acc.hit("own_address_changed_mid_run")
                 ctx[3] = new_nwk
-            V, app, ncp, own_nwk, rec = ctx
+            hops = desc.get("reconnect") or []
+            if hops and i and i % (n // (len(hops) + 1)) == 0 and (i // (n // (len(hops) + 1))) <= len(hops):
+                nv = hops[i // (n // (len(hops) + 1)) - 1]
+                try:
+                    await ctx[5].reconnect(nv)
+                except BaseException as ex:  # noqa: BLE001
+                    acc.violation("C13/setup/fault-free-application-start-failed", f"reconnecting the application to an NCP v{nv} ended with {ex!r}",
+                                  {"version": nv, "mix": versions, "reconnect": hops})
+                    return
+                ctx[0], ctx[2], ctx[3] = nv, ctx[5].ncp, int(ctx[1].state.node_info.nwk)
+                acc.hit("same_application_reconnected_to_another_version" if nv != versions[0] or True else "x")
+                acc.hit("v14_layout" if nv >= 14 else "pre_v14_layout")
+            V, app, ncp, own_nwk, rec = ctx[:5]
 
             def inject(frame):
                 rec.clear()
@@ -136,7 +154,7 @@ def run_shard(desc) -> Acc:
                          binding=rnd.randrange(256), address=rnd.randrange(256), payload=rnd.randbytes(plen),
                          eui64=rnd.randbytes(8), timestamp=rnd.getrandbits(32))
                 frame = enc_incoming(V, seq, f)
-                case = {"version": V, "mix": versions, "kind": "incoming", "fields": {k: (v.hex() if isinstance(v, bytes) else v) for k, v in f.items()},
+                case = {"version": V, "mix": versions, "reconnect": desc.get("reconnect"), "kind": "incoming", "fields": {k: (v.hex() if isinstance(v, bytes) else v) for k, v in f.items()},
                         "frame": frame.hex()}
                 ex = inject(frame)
                 types_seen.add(mt)
@@ -144,6 +162,9 @@ def run_shard(desc) -> Acc:
                     acc.violation("C13/incoming/raised", f"frame_received raised {ex!r}", case)
                     continue
                 pk = [r for r in rec if r[0] == "packet"]
+                if (mt in (0, 2, 4)) != (len(pk) == 1):
+                    await asyncio.sleep(0.5)  # virtual time: a packet may be handed over from a task
+                    pk = [r for r in rec if r[0] == "packet"]
                 if mt not in (0, 2, 4):
                     acc.hit("ignored_type")
                     if pk:
@@ -190,32 +211,54 @@ def run_shard(desc) -> Acc:
                 if len(acc.samples) < 2:
                     acc.sample({"version": V, "frame": frame.hex()[:160], "packet": repr(p)[:300]})
             else:
-                st_ = rnd.choice([0, 1, 2, 3, 4, 5, 7, 6, rnd.randrange(256)])
-                dec = rnd.choice([0, 1, 2, 3, rnd.randrange(256)])
-                f = dict(nwk=rnd.randrange(65536), ieee=rnd.choice([rnd.randbytes(8), bytes([1, 2, 3, 4, 5, 0x8C, 0xCF, 0x04])]),
-                         status=st_, decision=dec, parent=rnd.randrange(65536))
-                frame = enc_tcjoin(V, seq, f)
-                case = {"version": V, "mix": versions, "kind": "tcjoin", "fields": {k: (v.hex() if isinstance(v, bytes) else v) for k, v in f.items()},
-                        "frame": frame.hex()}
-                ex = inject(frame)
+                # one trust-centre join callback - or a burst of two or three handed over back to back
+                # (no yield in between) - then the loop is given time: an implementation may announce
+                # from a task, but every allowed join / leave must be announced, and nothing else
+                burst = rnd.choice([1, 1, 1, 2, 3])
+                want, frames, fields_all = [], [], []
+                lumi = bytes([1, 2, 3, 4, 5, 0x8C, 0xCF, 0x04])
+                for b_ in range(burst):
+                    st_ = rnd.choice([0, 1, 2, 3, 4, 5, 7, 6, rnd.randrange(256)])
+                    dec = rnd.choice([0, 1, 2, 3, rnd.randrange(256)])
+                    f = dict(nwk=rnd.randrange(65536), ieee=rnd.choice([rnd.randbytes(8), lumi, bytes([b_ + 1]) + lumi[1:5] + bytes([0x44, 0xEF, 0x54])]),
+                             status=st_, decision=dec, parent=rnd.randrange(65536))
+                    fields_all.append({k: (v.hex() if isinstance(v, bytes) else v) for k, v in f.items()})
+                    frames.append(enc_tcjoin(V, seq, f))
+                    if st_ == 2:
+                        want.append(("leave", f["nwk"], f["ieee"]))
+                        acc.hit("leave")
+                    elif dec == 2:
+                        acc.hit("deny")
+                    else:
+                        want.append(("join", f["nwk"], f["ieee"], f["parent"]))
+                        acc.hit("join")
+                frame = b"".join(frames)
+                case = {"version": V, "mix": versions, "reconnect": desc.get("reconnect"), "kind": "tcjoin", "fields": fields_all,
+                        "frame": [fr_.hex() for fr_ in frames]}
+                rec.clear()
+                ex = None
+                for fr_ in frames:
+                    try:
+                        app._ezsp.frame_received(fr_)
+                    except BaseException as ex_:  # noqa: BLE001
+                        ex = ex_
                 if ex is not None:
                     acc.violation("C13/join/raised", f"frame_received raised {ex!r}", case)
                     continue
                 ev = [r for r in rec if r[0] in ("join", "leave")]
-                if st_ == 2:
-                    want = [("leave", f["nwk"], f["ieee"])]
-                    acc.hit("leave")
-                elif dec == 2:
-                    want = []
-                    acc.hit("deny")
-                else:
-                    want = [("join", f["nwk"], f["ieee"], f["parent"])]
-                    acc.hit("join")
-                if ev != want:
-                    key = "C13/join/denied-join-reported" if (dec == 2 and st_ != 2 and ev) else \
-                        "C13/join/leave-not-reported" if st_ == 2 else "C13/join/wrong-event"
-                    acc.violation(key, f"status {st_} decision {dec}: events {[(e[0],) + tuple(x.hex() if isinstance(x, bytes) else x for x in e[1:]) for e in ev]}, "
-                                  f"expected {[(e[0],) + tuple(x.hex() if isinstance(x, bytes) else x for x in e[1:]) for e in want]}", case)
+                if sorted(ev, key=repr) != sorted(want, key=repr):
+                    await asyncio.sleep(1.0)  # virtual time: let announcing tasks (if any) finish
+                    ev = [r for r in rec if r[0] in ("join", "leave")]
+                    acc.hit("join_events_awaited")
+                if burst > 1:
+                    acc.hit("join_callbacks_back_to_back")
+                if sorted(ev, key=repr) != sorted(want, key=repr):
+                    fmt = lambda L: [(e[0],) + tuple(x.hex() if isinstance(x, bytes) else x for x in e[1:]) for e in L]  # noqa: E731
+                    missing = [w_ for w_ in want if w_ not in ev]
+                    extra = [e_ for e_ in ev if e_ not in want]
+                    key = "C13/join/denied-join-reported" if (extra and not missing and any(e_[0] == "join" for e_ in extra)) else \
+                        "C13/join/leave-not-reported" if any(m_[0] == "leave" for m_ in missing) else "C13/join/wrong-event"
+                    acc.violation(key, f"{burst} callback(s) {fields_all}: events {fmt(ev)}, expected {fmt(want)}", case)
                     continue
                 acc.nontrivial(frame)
             if i % 200 == 199:
@@ -242,4 +285,5 @@ def post_merge(reach, tier, events=None):
 
 
 def replay(case) -> Acc:
-    return run_shard({"versions": case.get("mix") or [case["version"]], "n": 1500, "seed": case.get("seed", 0)})
+    return run_shard({"versions": case.get("mix") or [case["version"]], "reconnect": case.get("reconnect"), "n": 1500 if not case.get("reconnect") else 600,
+                      "seed": case.get("seed", 0)})
